@@ -40,6 +40,7 @@ func runAUG(c *Ctx) (obls []Obl) {
 	defer a.flush()
 	augTypeStr(c, a)
 	augLoad(c, a)
+	augParams(c, a)
 	fn := c.MustFunc(&obls, "AUG-words", "stack", "", "augmentCall")
 	if fn == nil {
 		return
@@ -304,6 +305,11 @@ func augFmtHelpers(c *Ctx, a *flAgg, popFmt, popName *ssa.Function) {
 				}
 			}
 		}
+		if h.name == "popFmt" {
+			if pf := h.f.Parent(); pf != nil {
+				augBases(a, pf)
+			}
+		}
 		if okAll {
 			a.ok("AUG-fmt", "augmentCall/"+h.name, h.name+" renders a missing argument as <nil>, a too-large one as _, and otherwise the value itself ("+map[string]string{"popFmt": "through the formatter of the declared type", "popName": "as its pseudo-name or in hexadecimal"}[h.name]+")", h.f.Pos())
 		} else {
@@ -367,6 +373,19 @@ func augDecode(c *Ctx, a *flAgg, fn *ssa.Function, p *Path, kind string, closure
 					if n == "FormatFloat" && len(in.Call.Args) == 4 {
 						if bs, ok := bnConst(in.Call.Args[3]); ok {
 							n = fmt.Sprintf("FormatFloat:%d", bs)
+						}
+						// the shortest representation that round-trips: format 'g', negative precision
+						if f, ok := bnConst(in.Call.Args[1]); !ok || f != 'g' {
+							n += "/format"
+						}
+						if pr, ok := bnConst(in.Call.Args[2]); !ok || pr >= 0 {
+							n += "/precision"
+						}
+					}
+					// decimal
+					if (n == "FormatInt" || n == "FormatUint") && len(in.Call.Args) == 2 {
+						if base, ok := bnConst(in.Call.Args[1]); !ok || base != 10 {
+							n += fmt.Sprintf("/base%d", base)
 						}
 					}
 					if strings.HasPrefix(n, "Format") {
@@ -548,6 +567,55 @@ func augErrors(c *Ctx, a *flAgg) {
 					} else {
 						a.bad("AUG-errors", "ScanSnapshot/augment-error-ignored", "the error of augment influences ScanSnapshot's result", in.Pos())
 					}
+				}
+			}
+		}
+	}
+}
+
+// augBases: every integer rendered by augmentCall and its closures (values,
+// string and slice lengths, capacities) is decimal; the only other base is
+// the hexadecimal of a "0x"-prefixed pointer.
+func augBases(a *flAgg, fn *ssa.Function) {
+	var fns []*ssa.Function
+	var add func(f *ssa.Function)
+	add = func(f *ssa.Function) {
+		fns = append(fns, f)
+		for _, af := range f.AnonFuncs {
+			add(af)
+		}
+	}
+	add(fn)
+	n := 0
+	for _, f := range fns {
+		for _, b := range f.Blocks {
+			for _, in := range b.Instrs {
+				call, ok := in.(*ssa.Call)
+				if !ok {
+					continue
+				}
+				cal := call.Call.StaticCallee()
+				if cal == nil || calleePkg(cal) != "strconv" || (cal.Name() != "FormatInt" && cal.Name() != "FormatUint" && cal.Name() != "Itoa") || len(call.Call.Args) != 2 {
+					continue
+				}
+				n++
+				base, isC := bnConst(call.Call.Args[1])
+				hexOK := false
+				if isC && base == 16 {
+					// operand of "0x" + ...
+					for _, r := range *call.Referrers() {
+						if bo, ok := r.(*ssa.BinOp); ok && bo.Op == token.ADD {
+							if k, ok := bo.X.(*ssa.Const); ok && k.Value != nil && k.Value.ExactString() == `"0x"` {
+								hexOK = true
+							}
+						}
+					}
+				}
+				key := fmt.Sprintf("augmentCall/base:%s#%d", funcKey(f), n)
+				if isC && (base == 10 || hexOK) {
+					a.ok("AUG-fmt", key, "integers are rendered in decimal (hexadecimal only behind 0x)", call.Pos())
+				} else {
+					a.bad("AUG-fmt", key, fmt.Sprintf("an integer is rendered in base %d: the text shown is not the value the program passed", base), call.Pos())
 				}
 			}
 		}
